@@ -433,7 +433,8 @@ def run(project: Project, rep, tier: str):
     check_fwd(project, rep)
     check_grid(project, rep)
     check_snap(project, rep)
-    from .ramp import check_pack, check_ramp
+    from .ramp import check_pack, check_ramp, check_vectorize
+    check_vectorize(project, rep)
     ramp_status = check_ramp(project, rep)
     if ramp_status == "ok":
         check_pack(project, rep)
@@ -453,5 +454,5 @@ def run(project: Project, rep, tier: str):
     if not bad:
         rep.discharged("GL-DEFAULT", None, None, f"{n_keys} parameters/attributes of the landscape modules use None as the "
                                                  f"'not given' marker; none of them is also truth-tested")
-    for rn, n in (("GL-FWD", 3), ("GL-GRID", 7), ("GL-SNAP", 3), ("GL-INDEX", 2), ("GL-DV", 2), ("GL-INF", 3), ("GL-DEFAULT", 1), ("GL-RAMP", 1)):
+    for rn, n in (("GL-FWD", 3), ("GL-GRID", 7), ("GL-SNAP", 3), ("GL-INDEX", 2), ("GL-DV", 2), ("GL-INF", 3), ("GL-DEFAULT", 1), ("GL-RAMP", 1), ("GL-VEC", 8)):
         rep.floor(rn, n)
